@@ -38,8 +38,12 @@ class Bench:
         self.trees = {}
         errs = []
 
+        self.hook_applied_here = False
+
         def b(v):
             try:
+                tree = ctx.build(v, targets=())          # copy only
+                self.ensure_hook(tree)
                 self.trees[v] = ctx.build(v, targets=("nano_virt", "nano_vm", "nano_vmd"))
             except Exception as e:      # re-raised in the main thread
                 errs.append(e)
@@ -51,6 +55,18 @@ class Bench:
         self.mods = {}
         self.P = None
 
+    def ensure_hook(self, tree):
+        """Hook H4 is add-only and inert without its environment variables.  When the tree under test does not carry
+        it yet, it is applied to the scratch copy (never to the repository), so the check never talks to a shared
+        /tmp daemon."""
+        if "NANOLANG_VERIF_VMD_DIR" in open(os.path.join(tree, "src/nanovm/vmd_protocol.c")).read():
+            return
+        patch = os.path.join(VERIF, "hooks", "h4-vmd.patch")
+        p = sh(["patch", "-p1", "--no-backup-if-mismatch", "-i", patch], cwd=tree, check=False)
+        if p.returncode != 0:
+            raise InfraError("hook H4 is not in the tree under test and hooks/h4-vmd.patch does not apply:\n%s%s" % (p.stdout[-800:], p.stderr[-800:]))
+        self.hook_applied_here = True
+
     def wait(self):
         for t in self._threads:
             t.join()
@@ -61,7 +77,9 @@ class Bench:
         self.nano_vm = os.path.join(tree, "bin/nano_vm")
         self.nano_virt = os.path.join(tree, "bin/nano_virt")
         self.hooked = "NANOLANG_VERIF_VMD_DIR" in open(os.path.join(tree, "src/nanovm/vmd_protocol.c")).read()
-        self.traced = "NANOLANG_VERIF_TRACE" in open(os.path.join(tree, "src/nanovm/vmd_server.c")).read()
+        self.traced = "NANOLANG_VERIF_VMD_TRACE" in open(os.path.join(tree, "src/nanovm/vmd_server.c")).read()
+        if self.hook_applied_here:
+            self.ctx.assumptions.append("hook H4 (hooks/h4-vmd.patch) was not in the tree under test; it was applied to the scratch copy before building")
         if not self.hooked:
             raise InfraError("hook H4 (hooks/h4-vmd.patch) is not applied to the tree under test: the daemon would use "
                              "the shared /tmp socket; refusing to run")
@@ -245,7 +263,10 @@ def tsan_reports(text):
         body = m.group(0)
         funcs = re.findall(r"#\d+ (\S+) ", body)
         locs = re.findall(r"Location is global '([^']+)'", body)
-        reps.append(dict(kind=m.group(1).strip(), text=body[:4000], funcs=funcs, globals=locs))
+        # the two racing accesses: first frame of every "Read of / Write of / Previous ..." block
+        acc = re.findall(r"(?:Read|Write|Previous read|Previous write|Atomic read|Atomic write|Previous atomic \w+) of size \d+ at \S+ by [^\n]*\n\s+#0 (\S+) ", body)
+        hook = bool(acc or locs) and all(a.startswith("nlv_") for a in acc) and all(g.startswith("nlv_") for g in locs)
+        reps.append(dict(kind=m.group(1).strip(), text=body[:4000], funcs=funcs, globals=locs, access=acc, hook_only=hook))
     return reps
 
 
